@@ -148,6 +148,7 @@ type Batch struct {
 	Op    string
 	Count int
 	Seed  int
+	Lean  bool // the calls are recorded by `call` events: the projection of `exchange` to what identifies a batch call
 }
 
 type Case struct {
@@ -224,7 +225,7 @@ func (c Case) JSON() M {
 		steps = []M{} // derived from the batch description
 	}
 	return M{"kind": "session", "api": M{"base": c.API.Base, "ops": ops, "key_in": c.API.KeyIn, "key_name": c.API.KeyName, "key_ctx": c.API.KeyCtx}, "shared": c.Shared, "steps": steps, "bstatic": kvJSON(c.BaseStatic), "reuse": c.Reuse, "precustom": c.PreCustom,
-		"conc": c.Conc, "procs": c.Procs, "yield": c.Yield, "via": c.Via, "gate": c.Gate, "batch": M{"op": c.Batch.Op, "count": c.Batch.Count, "seed": c.Batch.Seed}}
+		"conc": c.Conc, "procs": c.Procs, "yield": c.Yield, "via": c.Via, "gate": c.Gate, "batch": M{"op": c.Batch.Op, "count": c.Batch.Count, "seed": c.Batch.Seed, "lean": c.Batch.Lean}}
 }
 
 func caseFrom(d M) Case {
@@ -284,7 +285,7 @@ func caseFrom(d M) Case {
 	c.BaseStatic, c.Reuse, c.PreCustom = kvFrom(d["bstatic"]), drv.Bool(d["reuse"]), drv.Str(d["precustom"])
 	c.Conc, c.Procs, c.Yield, c.Via, c.Gate = drv.Int(d["conc"]), drv.Int(d["procs"]), drv.Bool(d["yield"]), drv.Str(d["via"]), drv.Int(d["gate"])
 	if b := drv.Map(d["batch"]); b != nil {
-		c.Batch = Batch{Op: drv.Str(b["op"]), Count: drv.Int(b["count"]), Seed: drv.Int(b["seed"])}
+		c.Batch = Batch{Op: drv.Str(b["op"]), Count: drv.Int(b["count"]), Seed: drv.Int(b["seed"]), Lean: drv.Bool(b["lean"])}
 	}
 	if c.Batch.Count > 0 {
 		c.Steps = batchSteps(c.API, c.Batch)
@@ -1146,6 +1147,9 @@ func execute(c *drv.Ctx, d M) bool {
 					continue
 				}
 				evs[i], oks[i] = exchangeOnce(rt, &cs.API, x, op, true)
+				if cs.Batch.Lean {
+					evs[i] = lean(evs[i], cs.Batch, i)
+				}
 			}
 		}()
 	}
@@ -1157,12 +1161,30 @@ func execute(c *drv.Ctx, d M) bool {
 			noEvent(i, cs.Steps[i])
 			continue
 		}
-		c.W.Event("exchange", evs[i])
+		if cs.Batch.Lean {
+			c.W.Event("call", evs[i])
+		} else {
+			c.W.Event("exchange", evs[i])
+		}
 		if oks[i] {
 			nontrivial = true
 		}
 	}
 	return nontrivial
+}
+
+// lean projects the exchange event of a batch call: every value the call supplies ends in its tag "<seed>-<number>" (sent),
+// handler invocations are filed under the call whose tag their values carry (invoked, handled_op), and the handler echoes
+// the tag of the call it was invoked for in the response header X-Out (echoed: the values the caller's reader saw).
+func lean(ev M, b Batch, i int) M {
+	var echoed any = [][]int{}
+	if seen, ok := ev["seen"].(M); ok {
+		if hs, ok := seen["hdrs"].([]M); ok && len(hs) > 0 {
+			echoed = hs[0]["vs"]
+		}
+	}
+	return M{"step": ev["step"], "op": ev["op"], "err": ev["err"], "handled_op": ev["handled_op"], "invoked": ev["invoked"],
+		"sent": trace.B(fmt.Sprintf("%d-%d", b.Seed, i)), "echoed": echoed}
 }
 
 // exchangeOnce makes the call x.step of operation op through rt and returns its event.
